@@ -240,6 +240,7 @@ def oracle(ctx):
     substituted_forward_probe(ctx)
     options_snapshot_probe(ctx)
     parameterless_operator_probe(ctx)
+    autodetected_hermitian_leaf_probe(ctx)
 
 
 def operator_reuse_probe(ctx):
@@ -563,6 +564,45 @@ def parameterless_operator_probe(ctx):
         err = max(float((u - w).abs().max()) for u, w in zip(got, ref))
         if not err <= 1e-7:
             ctx.fail("oracle", "solvegrad:parameterless-operator:value", info, err, "<= 1e-7 against the dense solution map")
+
+
+def autodetected_hermitian_leaf_probe(ctx):
+    """LinearOperator.m(A) with the default is_hermitian=None on an UNCONSTRAINED leaf A that happens to be symmetric at the evaluation
+    point: gradients are those of the solution map of a general matrix, first and second order (finding F44: the flag is detected
+    from the values, A.H then is A itself and the backward solve is recorded as a function of A instead of A^T - first order agrees,
+    the second-order gradient in a non-symmetric direction does not)"""
+    import xitorch as xt
+    from xitorch.linalg import solve
+    g = torch.Generator().manual_seed(ctx.seed + 79)
+    n = 3
+    S = torch.randn(n, n, dtype=DT, generator=g)
+    S = (S + S.T) / 2 + 3.0 * torch.eye(n, dtype=DT)
+    B0 = torch.randn(n, 1, dtype=DT, generator=g)
+    w = torch.randn(n, n, dtype=DT, generator=g)
+
+    def grads(make_x):
+        A = S.clone().requires_grad_()
+        B = B0.clone().requires_grad_()
+        X = make_x(A, B)
+        gA, = torch.autograd.grad((X * X).sum(), A, create_graph=True)
+        g2, = torch.autograd.grad((gA * w).sum(), A)
+        return gA.detach(), g2
+    r1, r2 = grads(lambda A, B: torch.linalg.solve(A, B))
+    for method in ("custom_exactsolve", "bicgstab"):
+        for flag in (None, False):
+            kw = {"rtol": 1e-13, "atol": 1e-15} if method == "bicgstab" else {}
+            ctx.count(("autodetected-hermitian-leaf", method, flag), nontrivial=True)
+            with warnings.catch_warnings():
+                warnings.simplefilter("ignore")
+                g1, g2 = grads(lambda A, B: solve(xt.LinearOperator.m(A, is_hermitian=flag), B, method=method,
+                                                  bck_options=dict(kw, method=method), **kw))
+            e1, e2 = float((g1 - r1).abs().max()), float((g2 - r2).abs().max())
+            info = {"method": method, "is_hermitian": flag, "A": "unconstrained leaf, symmetric at the evaluation point", "n": n}
+            if not e1 <= 1e-9:
+                ctx.fail("oracle", "solvegrad:symmetric-valued-leaf:first-order", info, e1, "<= 1e-9")
+            elif not e2 <= 1e-8:
+                ctx.fail("oracle", "solvegrad:second-order:autodetected-hermitian-leaf" if flag is None else "solvegrad:symmetric-valued-leaf:second-order",
+                         info, {"second_order_error": e2}, "<= 1e-8 against torch.linalg.solve")
 
 
 def search(ctx):
